@@ -45,7 +45,7 @@ def evalOk (env : Env) (e : Expr) : Bool :=
 def exTree : Expr :=
   .bin .sub (.opd exVec) (.bin .mul (.un .neg (.leaf 0)) (.bin .dot (.leaf 1) (.un .uconjugate (.leaf 0))))
 
-theorem exEnv_wf : ∀ f ∈ exEnv.fields, CFwf f ∧ f.mesh.n = [2] := by
+example : ∀ f ∈ exEnv.fields, CFwf f ∧ f.mesh.n = [2] := by
   intro f hf
   simp only [exEnv, List.mem_cons, List.not_mem_nil, or_false] at hf
   rcases hf with rfl | rfl | rfl | rfl <;> exact ⟨⟨rfl, rfl, by decide⟩, rfl⟩
@@ -395,7 +395,7 @@ theorem unary_keeps_meta (fn : GQ → GQ) (rk : Kind → Kind) (keepUnit : Bool)
   injection hvm with hvm
   exact ⟨hn, hvd.symm, hvm.symm, hm, hu⟩
 
-theorem exA_metaStable : MetaStable exA := by
+example : MetaStable exA := by
   constructor <;> decide +kernel
 
 example : evalOk exEnv (.un .abs (.leaf 0)) = true := by decide +kernel
